@@ -67,7 +67,8 @@ fn rebuild(cfg: &Cfg, hasher: &TableHasher, ops: &[Op]) -> (Sut, u32) {
     tracker().reset();
     let mut sut = Sut::new(cfg, *hasher);
     let mut vid = 1;
-    for op in ops {
+    let pre = cfg.pre_ops();
+    for op in pre.iter().chain(ops.iter()) {
         sut.apply(cfg, *op, vid);
         if let Op::Ins(..) = op {
             vid += 1;
@@ -192,9 +193,30 @@ pub fn run_job(cfg: &Cfg, journal_path: Option<String>, wall_cap_s: f64) -> JobR
     let mut outcomes: HashSet<u64> = HashSet::new();
     let mut sig_seen: HashSet<(String, String)> = HashSet::new();
 
-    // initial state
+    // initial state (after the prefix, which is run through the oracles once)
+    let mut m0 = Model::new(cfg);
+    {
+        tracker().reset();
+        let mut sut = Sut::new(cfg, hasher);
+        for op in cfg.pre_ops() {
+            let pre = sut.snapshot();
+            let out = step(cfg, &mut sut, &mut m0, &pre, op, &hasher);
+            for mut vv in out.viol {
+                res.viol_total += 1;
+                if sig_seen.insert((vv.prop.to_string(), vv.sig.clone())) {
+                    vv.witness = witness(cfg, &[]);
+                    res.violations.push(vv);
+                }
+            }
+            if out.dead {
+                std::mem::forget(sut);
+                res.wall_s = t0.elapsed().as_secs_f64();
+                res.samples.push(witness(cfg, &[]));
+                return res;
+            }
+        }
+    }
     let (sut0, _) = rebuild(cfg, &hasher, &[]);
-    let m0 = Model::new(cfg);
     let s0 = sut0.snapshot();
     let fp0 = state_fp(cfg, &s0, sut0.clock().now(), &m0);
     drop(sut0);
@@ -397,13 +419,15 @@ pub fn replay(w: &str) -> Vec<Violation> {
     let parts: Vec<&str> = w.split('|').collect();
     assert!(parts.len() == 3 && parts[0] == "seqx", "not a seqx witness: {w}");
     let cfg = Cfg::parse(parts[1]);
-    let ops = parse_ops(parts[2]);
+    let mut ops = cfg.pre_ops();
+    let npre = ops.len();
+    ops.extend(parse_ops(parts[2]));
     let hasher = make_hasher(cfg.hash);
     tracker().reset();
     let mut sut = Sut::new(&cfg, hasher);
     let mut model = Model::new(&cfg);
     let mut all = Vec::new();
-    println!("config: {}", cfg.spec());
+    println!("config: {} ({npre} prefix operations)", cfg.spec());
     for (i, op) in ops.iter().enumerate() {
         let pre = sut.snapshot();
         let out = step(&cfg, &mut sut, &mut model, &pre, *op, &hasher);
@@ -428,7 +452,7 @@ pub fn replay(w: &str) -> Vec<Violation> {
     drop(sut);
     if cfg.pure_check && matches!(ops.last(), Some(Op::Con(_)) | Some(Op::Iter)) {
         // C15: the last call is the pure call under test; compare with the run without it
-        let base = &ops[..ops.len() - 1];
+        let base = &ops[npre..ops.len() - 1];
         let p = *ops.last().unwrap();
         let u = cfg.kind == Kind::U;
         let forced = u && matches!(p, Op::Con(_));
@@ -465,52 +489,54 @@ pub fn replay(w: &str) -> Vec<Violation> {
 /// capacity + write queue size + 1, and after maintenance the resident weight is
 /// within capacity again.
 pub fn overshoot() -> String {
+    use mini_moka::sync::ConcurrentCacheExt;
+    use std::hash::BuildHasherDefault;
+    type H = BuildHasherDefault<std::collections::hash_map::DefaultHasher>;
     let t0 = Instant::now();
-    let hasher = make_hasher(HashKind::Spread);
     let mut states = 0u64;
     let mut transitions = 0u64;
     let mut viols: Vec<Violation> = Vec::new();
     let mut sigs: HashSet<String> = HashSet::new();
     let mut samples = Vec::new();
     let mut max_seen = 0usize;
-    for n in [63usize, 64, 65, 383, 384, 385, 449, 800] {
-        for keys in [1usize, 2, 20] {
+    mini_moka::verif::set_shard_amount(4);
+    for n in [63usize, 64, 65, 383, 384, 385, 449, 800, 2000] {
+        for keys in [1usize, 2, usize::MAX] {
             for beyond in [true, false] {
                 for cap in [0u64, 1, 10] {
                     states += 1;
-                    let cfg = Cfg { kind: Kind::S, cap: Some(cap), beyond, nkeys: 20, ..Cfg::default() };
-                    tracker().reset();
-                    let mut sut = Sut::new(&cfg, hasher);
-                    let w = format!("overshoot|N={n},keys={keys},beyond={},cap={cap}", beyond as u8);
+                    let w = format!("overshoot|N={n},keys={},beyond={},cap={cap}", if keys == usize::MAX { "distinct".to_string() } else { keys.to_string() }, beyond as u8);
                     if samples.len() < 3 {
                         samples.push(w.clone());
                     }
                     let r = std::panic::catch_unwind(std::panic::AssertUnwindSafe(|| {
+                        let c: mini_moka::sync::Cache<u32, u32, H> = mini_moka::sync::Cache::builder().max_capacity(cap).build_with_hasher(H::default());
+                        let clock = c.verif_install_mock_clock();
+                        if beyond {
+                            clock.advance(std::time::Duration::from_millis(1000));
+                        }
                         let mut worst = 0usize;
                         for i in 0..n {
-                            sut.apply(&cfg, Op::Ins((i % keys) as u8, 1), i as u32 + 1);
-                            if let Obs::Items(items) = sut.apply(&cfg, Op::Iter, 0) {
-                                worst = worst.max(items.len());
+                            c.insert((i % keys.max(1)) as u32, i as u32);
+                            // iterating every time would make the family quadratic; the bound
+                            // can only be exceeded where the visible count peaks
+                            if i % 16 == 15 || i + 1 == n || (380..=400).contains(&i) {
+                                worst = worst.max(c.iter().count());
                             }
                         }
-                        sut.apply(&cfg, Op::Sync, 0);
-                        sut.apply(&cfg, Op::Sync, 0);
-                        let s = sut.snapshot();
-                        (worst, s.entries.iter().map(|e| e.weight as u64).sum::<u64>(), s.write_ops.len())
+                        c.sync();
+                        c.sync();
+                        (worst, c.iter().count() as u64, c.entry_count())
                     }));
-                    transitions += 2 * n as u64;
+                    transitions += n as u64;
                     match r {
-                        Ok((worst, total, pending)) => {
+                        Ok((worst, total, ec)) => {
                             max_seen = max_seen.max(worst);
-                            if worst as u64 > cap + 384 + 1 {
-                                if sigs.insert("overshoot".into()) {
-                                    viols.push(Violation { prop: "C04", sig: "S:overshoot-beyond-write-queue".into(), detail: format!("{worst} entries visible with max_capacity {cap}: more than capacity + 384 queued writes + 1"), witness: w.clone() });
-                                }
+                            if worst as u64 > cap + 384 + 1 && sigs.insert("overshoot".into()) {
+                                viols.push(Violation { prop: "C04", sig: "S:overshoot-beyond-write-queue".into(), detail: format!("{worst} entries visible with max_capacity {cap}: more than capacity + 384 queued writes + 1"), witness: w.clone() });
                             }
-                            if total > cap && pending == 0 {
-                                if sigs.insert("after".into()) {
-                                    viols.push(Violation { prop: "C04", sig: "S:resident-weight-above-capacity:after-burst".into(), detail: format!("after the burst and sync(): resident weight {total} > max_capacity {cap}"), witness: w.clone() });
-                                }
+                            if total > cap && sigs.insert("after".into()) {
+                                viols.push(Violation { prop: "C04", sig: "S:resident-weight-above-capacity:after-burst".into(), detail: format!("after the burst and sync(): {total} unit-weight residents (entry_count {ec}) > max_capacity {cap}"), witness: w.clone() });
                             }
                         }
                         Err(p) => {
@@ -524,7 +550,7 @@ pub fn overshoot() -> String {
         }
     }
     format!(
-        "{{\"engine\":\"overshoot\",\"spec\":\"N in 63..800 x keys 1,2,20 x regime x cap 0,1,10\",\"states\":{states},\"transitions\":{transitions},\"depth_done\":800,\"capped\":false,\"outcomes\":{max_seen},\"viol_total\":{},\"violations\":{},\"samples\":{},\"wall_s\":{:.3}}}",
+        "{{\"engine\":\"overshoot\",\"spec\":\"N in 63..2000 x keys 1,2,distinct x regime x cap 0,1,10\",\"states\":{states},\"transitions\":{transitions},\"depth_done\":2000,\"capped\":false,\"outcomes\":{max_seen},\"viol_total\":{},\"violations\":{},\"samples\":{},\"wall_s\":{:.3}}}",
         viols.len(),
         jlist(&viols.iter().map(|v| v.to_json()).collect::<Vec<_>>()),
         jlist(&samples.iter().map(|s| jstr(s)).collect::<Vec<_>>()),
